@@ -3,7 +3,9 @@
   target and then finish; a motor that makes no progress is switched off by the 10-minute limit.
 -/
 import SuplaVerif.Model.RsTask
+import SuplaVerif.Model.FbTask
 import SuplaVerif.Props.C09
+import SuplaVerif.Gen.Consts
 namespace SuplaVerif.C10
 open SuplaVerif
 
@@ -649,7 +651,7 @@ theorem c10_task_converges_up (P : RsP) (hfo : 10 ≤ P.fo)
 /-- from rest: the first callback after a task was added towards a target below the estimate starts the motor
     downwards (unless a zero margin forbids driving a shutter that already reports 100 %) -/
 theorem task_start_down (P : RsP) (s : RsT) (dt : Nat)
-    (h0 : s.tstate = 1 ∧ s.rel = 0 ∧ s.pend = 0 ∧ 100 ≤ s.pos ∧ s.pos ≤ 10100 ∧ s.sinceStop ≥ 900000)
+    (h0 : s.tstate = 1 ∧ s.rel = 0 ∧ s.pend = 0 ∧ 100 ≤ s.pos ∧ s.pos ≤ 10100 ∧ s.sinceStop ≥ startGate + s.lag)
     (hb : s.pos - 100 < s.target * 100) (hg : ¬ (P.margin = 0 ∧ reportedPos s.pos = 100)) :
     Mov (rsTick P s dt) ∧ (rsTick P s dt).pos = s.pos ∧ (rsTick P s dt).downT = 0 ∧
     (rsTick P s dt).target = s.target := by
@@ -661,7 +663,7 @@ theorem task_start_down (P : RsP) (s : RsT) (dt : Nat)
       { s with upT := 0, downT := 0, sinceStop := s.sinceStop + dt, tstate := 2, dir := 1, rel := 1, pend := 0 } := by
     rw [hacc]
     have e1 : ¬ (s.pos - 100 > s.target * 100) := by omega
-    have e3 : ¬ (s.sinceStop + dt < 900000) := by omega
+    have e3 : ¬ (s.sinceStop + dt < startGate + s.lag) := by omega
     have e4 : ¬ (P.margin = 0 ∧ reportedPos s.pos = 100) := hg
     have e6 : ¬ (s.target * 100 ≤ s.pos - 100) := by omega
     simp [taskStep, hts, hk, relReq, guardOn, hrel, hb, e1, e3, e4, e6]
@@ -707,5 +709,150 @@ theorem c10_request_at_current_position_stops (P : RsP) (s : RsT) (g : Nat) (h :
   rw [hpos, hk]
   simp only [Bool.not_true, Bool.false_eq_true, if_false, a1, a2, heq, Nat.lt_irrefl, if_true]
   simp [relOff, a3]
+
+/-! ### facade blinds (Model/FbTask): the task's tilt phase, the newest request, ranges, the time limit -/
+
+/-- the accounting callback keeps a known position inside 0..100 % and moves it only in the direction of travel -/
+theorem c10_fb_position_range (P : FbP) (s : FbT) (dt : Nat) (hk : 100 ≤ s.pos ∧ s.pos ≤ 10100) :
+    100 ≤ (fbAccount P s dt).pos ∧ (fbAccount P s dt).pos ≤ 10100 ∧
+    (s.rel = 2 → (fbAccount P s dt).pos ≤ s.pos) ∧ (s.rel = 1 → s.pos ≤ (fbAccount P s dt).pos) := by
+  have hkn : known s.pos = true := by unfold known; simp; omega
+  unfold fbAccount
+  by_cases h2 : s.rel = 2
+  · rw [if_pos h2]
+    simp only [fbCalibrate, hkn, Bool.not_true, Bool.false_and, Bool.false_eq_true, if_false]
+    have := C09.c09_pos_range_mono (P.mv true) { pos := s.pos, tilt := s.tilt, time := s.upT + dt } hk
+    simp only [FbP.mv] at this ⊢
+    refine ⟨this.1, this.2.1, fun _ => this.2.2.1 trivial, fun h => by omega⟩
+  · rw [if_neg h2]
+    by_cases h1 : s.rel = 1
+    · rw [if_pos h1]
+      simp only [fbCalibrate, hkn, Bool.not_true, Bool.false_and, Bool.false_eq_true, if_false]
+      have := C09.c09_pos_range_mono (P.mv false) { pos := s.pos, tilt := s.tilt, time := s.downT + dt } hk
+      simp only [FbP.mv] at this ⊢
+      refine ⟨this.1, this.2.1, fun h => by omega, fun _ => this.2.2.2 trivial⟩
+    · rw [if_neg h1]
+      exact ⟨hk.1, hk.2, fun h => absurd h h2, fun h => absurd h h1⟩
+
+/-- **C10 (blinds: the newest request wins)** a request with a position or a tilt made while the blind is on its way
+    always becomes the task -/
+theorem c10_fb_request_replaces_running (P : FbP) (s : FbT) (g gt : Int) (h : s.tstate ≠ 0 ∨ s.rel ≠ 0)
+    (hreq : ¬ ((if g > 100 then 100 else g) = -1 ∧ (if gt > 100 then 100 else gt) = -1)) :
+    (fbAddTask P s g gt).tstate = 1 ∧ (fbAddTask P s g gt).dir = 0 := by
+  unfold fbAddTask
+  simp only
+  have hidle : ¬ (s.tstate = 0 ∧ s.rel = 0) := by
+    intro hh; rcases h with h | h
+    · exact h hh.1
+    · exact h hh.2
+  rw [if_neg (by intro hh; rcases hh.2 with h1 | h1; exact hreq h1; exact hidle h1)]
+  exact ⟨rfl, rfl⟩
+
+theorem fbRelReq_frame (P : FbP) (s : FbT) (w : Nat) :
+    (fbRelReq P s w).tstate = s.tstate ∧ (fbRelReq P s w).dir = s.dir := by
+  unfold fbRelReq
+  simp only
+  split <;> split <;> exact ⟨rfl, rfl⟩
+
+theorem fbRelOff_frame (s : FbT) :
+    (fbRelOff s).tstate = s.tstate ∧ (fbRelOff s).dir = s.dir ∧ (fbRelOff s).rel = 0 ∧ (fbRelOff s).pend = 0 :=
+  ⟨rfl, rfl, rfl, rfl⟩
+
+/-- **C10 (blinds: the tilt phase ends at the target)** in the tilt phase, once the stored tilt has reached the requested one
+    in the direction of travel, the callback switches both outputs off and the task is over -/
+theorem c10_fb_tilt_reached_stops (P : FbP) (s : FbT) (hk : known s.pos = true) (h3 : s.tstate = 3)
+    (hreach : (s.dir = 2 ∧ fbRawTilt s ≤ s.ttarget * 100) ∨ (s.dir = 1 ∧ fbRawTilt s ≥ s.ttarget * 100)) :
+    (fbTaskStep P s).rel = 0 ∧ (fbTaskStep P s).tstate = 0 ∧ (fbTaskStep P s).pend = 0 := by
+  unfold fbTaskStep
+  rw [if_neg (by rw [h3]; decide)]
+  simp only [hk, Bool.not_true, Bool.false_eq_true, if_false]
+  have e1 : ∀ tp a, fbS1 P s tp a = s := by
+    intro tp a; unfold fbS1; rw [if_neg (by rw [h3]; decide)]
+  have e2 : ∀ rt tt, fbS2 P s rt tt = s := by
+    intro rt tt; unfold fbS2; rw [if_neg (by rw [h3]; intro h; cases h.1)]
+  have e3 : ∀ a b c d e, fbS3 P s a b c d e = s := by
+    intro a b c d e; unfold fbS3; rw [if_neg (by rw [h3]; intro h; cases h.1)]
+  rw [e1, e2, e3]
+  unfold fbS4
+  rw [if_pos ⟨h3, hreach⟩]
+  exact ⟨rfl, rfl, rfl⟩
+
+/-- **C10 (blinds: from the position phase to the tilt phase)** when the position phase is over (direction none) the next
+    callback either starts the tilt phase towards the requested tilt or, if nothing is left to do, ends the task with
+    both outputs off -/
+theorem c10_fb_position_phase_hands_over (P : FbP) (s : FbT) (hk : known s.pos = true) (h2 : s.tstate = 2) (hd : s.dir = 0) :
+    ((fbTaskStep P s).tstate = 3 ∧ (fbTaskStep P s).dir ≠ 0) ∨
+    ((fbTaskStep P s).tstate = 0 ∧ (fbTaskStep P s).rel = 0) := by
+  unfold fbTaskStep
+  rw [if_neg (by rw [h2]; decide)]
+  simp only [hk, Bool.not_true, Bool.false_eq_true, if_false]
+  have e1 : ∀ tp a, fbS1 P s tp a = s := by
+    intro tp a; unfold fbS1; rw [if_neg (by rw [h2]; decide)]
+  rw [e1]
+  generalize (fbPreTilt P s ((s.pos : Int) - 100) (fbRawTilt s) (s.target * 100) (s.ttarget * 100)) = pre
+  unfold fbS2
+  rw [if_pos ⟨h2, hd⟩]
+  by_cases ha : fbRawTilt s > s.ttarget * 100 ∧ s.ttarget * 100 ≠ -100
+  · left
+    rw [if_pos ha]
+    obtain ⟨f1, f2⟩ := fbRelReq_frame P { s with tstate := 3, dir := 2 } 2
+    generalize fbRelReq P { s with tstate := 3, dir := 2 } 2 = r at f1 f2
+    simp only at f1 f2
+    have e3 : fbS3 P r ((s.pos : Int) - 100) (fbRawTilt s) (s.target * 100) pre.2.1 pre.2.2 = r := by
+      unfold fbS3; rw [if_neg (by rw [f1]; intro h; cases h.1)]
+    rw [e3]
+    unfold fbS4
+    have : ¬ (r.tstate = 3 ∧ ((r.dir = 2 ∧ fbRawTilt s ≤ s.ttarget * 100) ∨ (r.dir = 1 ∧ fbRawTilt s ≥ s.ttarget * 100))) := by
+      rw [f2]; intro h; rcases h.2 with h' | h'
+      · omega
+      · cases h'.1
+    rw [if_neg this]
+    exact ⟨f1, by rw [f2]; decide⟩
+  · rw [if_neg ha]
+    by_cases hb : fbRawTilt s < s.ttarget * 100 ∧ s.ttarget * 100 ≠ -100
+    · left
+      rw [if_pos hb]
+      obtain ⟨f1, f2⟩ := fbRelReq_frame P { s with tstate := 3, dir := 1 } 1
+      generalize fbRelReq P { s with tstate := 3, dir := 1 } 1 = r at f1 f2
+      simp only at f1 f2
+      have e3 : fbS3 P r ((s.pos : Int) - 100) (fbRawTilt s) (s.target * 100) pre.2.1 pre.2.2 = r := by
+        unfold fbS3; rw [if_neg (by rw [f1]; intro h; cases h.1)]
+      rw [e3]
+      unfold fbS4
+      have : ¬ (r.tstate = 3 ∧ ((r.dir = 2 ∧ fbRawTilt s ≤ s.ttarget * 100) ∨ (r.dir = 1 ∧ fbRawTilt s ≥ s.ttarget * 100))) := by
+        rw [f2]; intro h; rcases h.2 with h' | h'
+        · cases h'.1
+        · omega
+      rw [if_neg this]
+      exact ⟨f1, by rw [f2]; decide⟩
+    · right
+      rw [if_neg hb]
+      have e3 : ∀ r : FbT, r.tstate = 0 → fbS3 P r ((s.pos : Int) - 100) (fbRawTilt s) (s.target * 100) pre.2.1 pre.2.2 = r := by
+        intro r hr; unfold fbS3; rw [if_neg (by rw [hr]; intro h; cases h.1)]
+      have e4 : ∀ r : FbT, r.tstate = 0 → fbS4 r (fbRawTilt s) (s.ttarget * 100) = r := by
+        intro r hr; unfold fbS4; rw [if_neg (by rw [hr]; intro h; cases h.1)]
+      rw [e3 _ rfl, e4 _ rfl]
+      exact ⟨rfl, rfl⟩
+
+/-- **C10 (blinds: ten minutes)** the reporting block switches a blind off as soon as either run time exceeds ten minutes -/
+theorem c10_fb_limit_off (s : FbT) (dt : Nat) (hc : s.comm + dt ≥ 200000)
+    (hl : s.upT > 600000000 ∨ s.downT > 600000000) : (fbCommStep s dt).rel = 0 := by
+  unfold fbCommStep
+  rw [if_pos hc, if_pos hl]
+  simp [fbRelOff]
+
+/-- non-vacuity: mode 1 (position kept while tilting), 20 s travel, 2 s tilting, from 50 % / 0 %: a request for 50 % / 60 % runs
+    the tilt phase only and ends with both outputs off at tilt 60 % -/
+example :
+    let P : FbP := { fo := 20000, fc := 20000, margin := 110, inMove := false, ttype := 1, tiltMs := 2000 }
+    let s := fbRun P (fbAddTask P { pos := 5100, tilt := 100 } 50 60) (List.replicate 140 10000)
+    s.rel = 0 ∧ s.tstate = 0 ∧ s.tilt = 6100 ∧ s.pos = 5100 := by
+  set_option maxRecDepth 100000 in decide
+
+/-- the two timing constants of the task models are those of the source tree (regenerated): a start is postponed while
+    `RS_START_DELAY - elapsed_ms + 1` exceeds the 100 ms threshold; one relay_hi takes 10 µs + RELAY_DOUBLE_TRY + 10 µs -/
+theorem c10_gate_consts :
+    startGate = (Gen.rsParams.startDelay - Gen.rsParams.thresh + 1) * 1000 ∧
+    relayHiUs = Gen.rsParams.preUs + Gen.rsParams.dblUs + Gen.rsParams.postUs := by decide
 
 end SuplaVerif.C10
